@@ -116,8 +116,24 @@ def analyse(pid, tier, root, evidence_dir=None, quiet=True, model=None):
     except AnalysisError:
         _decide_in_normal_forms(pid, tier, root, rep)
         if not any(not o.ok for o in rep.obligations):
-            raise
+            rep2 = _retry_with_reference_names(pid, tier, root, evidence_dir, quiet)
+            if rep2 is None:
+                raise
+            return rep2
         return rep
+    _decide_in_normal_forms(pid, tier, root, rep)
+    return rep
+
+
+def _retry_with_reference_names(pid, tier, root, evidence_dir=None, quiet=True):
+    """A rule that anchors on the NAME of a local gives up (AnalysisError) when that local was renamed.  Renaming locals consistently preserves
+    behaviour, so the rules are run once more on the tree with the locals of every function renamed towards the reference naming of the anchored
+    tree (oracles/local_names.json, by binding order).  Returns the complete report of that run, or None if it cannot be analysed either."""
+    try:
+        rep, _ = _run_rules(pid, tier, root, 'names', evidence_dir=evidence_dir, quiet=quiet)
+    except Exception:
+        return None
+    rep.extra_coverage['decided_on'] = 'the tree with locals renamed to the reference naming (alpha-conversion), because a rule could not find a local it anchors on'
     _decide_in_normal_forms(pid, tier, root, rep)
     return rep
 
@@ -133,16 +149,25 @@ def run_property(pid, tier, root, evidence_dir=None, replay_key=None, quiet=Fals
     try:
         mod.run(model, rep, tier)
     except AnalysisError as e:
-        # an anchor moved or a construct could not be classified: say so, but do not lose violations that were already established
-        print(f'ANALYSIS-ERROR property={pid}: {e}')
+        # an anchor moved or a construct could not be classified: do not lose violations that were already established
         _decide_in_normal_forms(pid, tier, root, rep)
-        if any(not o.ok for o in rep.obligations) and rep.finish(only_key=replay_key) == 1:
-            return 1
-        return 2
+        if any(not o.ok for o in rep.obligations):
+            print(f'ANALYSIS-ERROR property={pid}: {e}')
+            return 1 if rep.finish(only_key=replay_key) == 1 else 2
+        rep2 = _retry_with_reference_names(pid, tier, root, evidence_dir, quiet)
+        if rep2 is None:
+            print(f'ANALYSIS-ERROR property={pid}: {e}')
+            return 2
+        print(f'INFO {pid}: a rule could not find a local it anchors on ({str(e)[:120]}); decided on the tree with locals renamed to the reference naming')
+        rep2.t0 = rep.t0
+        rep2.units.update(rep.units)
+        rep2.extra_coverage['tree_digest'] = rep.extra_coverage.get('tree_digest')
+        rep = rep2
     _decide_in_normal_forms(pid, tier, root, rep)
     shortfall = False
     if tier == 'thorough' and replay_key is None:
         shortfall = thorough_selftest(pid, root, rep)
+        thorough_forms(pid, root, rep)
     rc = rep.finish(only_key=replay_key)
     if rc == 0 and shortfall:
         print(f'ANALYSIS-ERROR property={pid}: self-test shortfall (a seeded fault was missed or a benign twin fired); the verdict of the rules on the tree above is unaffected')
@@ -174,6 +199,28 @@ def thorough_selftest(pid, root, rep):
     for ln in tally.get('problems', []):
         print('  SELFTEST-SHORTFALL ' + ln)
     return bool(tally.get('problems'))
+
+
+def thorough_forms(pid, root, rep):
+    """Thorough tier: the rules are also run on whole-tree normal forms of the tree under test (every admissible local substituted).  A rule that
+    holds as written but fails there depends on the spelling of a local (a refactoring that inlines that local would alarm); it is reported as
+    information and recorded in the evidence - it is not a verdict on the property."""
+    known = [e for e in rep._known() if e.get('status') == 'known']
+    out = {}
+    for form in ('proj', 'once', 'all'):
+        try:
+            repf, _ = _run_rules(pid, 'quick', root, form)
+            bad = [o for o in repf.obligations if not o.ok and not any(rep._matches(e, o) for e in known)]
+            out[form] = {'obligations': len(repf.obligations), 'spelling_dependent': [f'{o.rule} {o.construct}' for o in bad]}
+        except Exception as e:
+            out[form] = {'not_analysable': f'{type(e).__name__}: {str(e)[:160]}'}
+    rep.extra_coverage['normal_form_robustness'] = out
+    for form, r in out.items():
+        if 'not_analysable' in r:
+            print(f'INFO {pid} whole-tree normal form `{form}`: not analysable ({r["not_analysable"]})')
+        else:
+            print(f'INFO {pid} whole-tree normal form `{form}`: {r["obligations"]} obligations, {len(r["spelling_dependent"])} depend on the spelling of a local' +
+                  (': ' + '; '.join(r['spelling_dependent'][:4]) if r['spelling_dependent'] else ''))
 
 
 def main(argv=None):
